@@ -20,7 +20,7 @@ T = {
     'C09-m1': ('C09', 'the broken variant of a commented dict value re-renders unwrap_comments(v)[0]: a dict value carrying BOTH comment() and trailing_comment() loses its trailing comment', {'C09': 'VIOLATION with input'}),
     'C10-m1': ('C10', 'non-str dict keys are printed with max_seq_len=sys.maxsize: a tuple/frozenset key longer than N is not truncated', {'C10': 'VIOLATION with input'}),
     'C11-m1': ('C11', 'the re-rendered (comment-above) variant of a commented dict value drops nested_call(): cut one level too late, only when the value is commented AND the line does not fit', {'C11': 'VIOLATION with input (after adding commented values to the C11 generator; missed before)'}),
-    'C03-m1': ('C03', 'the dangling comma of a commented one-element tuple is added only in the flat variant: at narrow widths (comment above the element) the 1-tuple prints as a parenthesised expression', {}),
+    'C03-m1': ('C03', 'the dangling comma of a commented one-element tuple is added only in the flat variant: at narrow widths (comment above the element) the 1-tuple prints as a parenthesised expression', {'C03': 'VIOLATION with input', 'C09': 'VIOLATION with input'}),
 }
 
 
